@@ -31,7 +31,7 @@ ASSUMPTIONS = ["DONT_CARE (statement silent): key_ops for dir and for ECDH agree
                "RSA: encrypt side needs encrypt or wrapKey, decrypt side decrypt or unwrapKey - only key_ops with neither count as unsuitable",
                "DER given to OctKey.import_key has no textual marker: no warning asserted"]
 BUDGET_S = {"quick": 85, "thorough": 900}
-FLOORS = {"quick": {"clause:kty": 800, "clause:curve": 150, "clause:size": 150, "clause:use": 400, "clause:key_ops": 400, "clause:private": 150,
+FLOORS = {"quick": {"clause:kty": 800, "clause:curve": 150, "clause:size": 150, "clause:use": 400, "clause:key_ops": 400, "clause:private": 150, "clause:sender-curve": 100,
                     "mac-confusion": 300, "oct-import-warning": 60, "control:ok": 500},
           "thorough": {"clause:kty": 5000}}
 
@@ -141,6 +141,10 @@ def violations(alg, op):
             if ops == [] and not jws:
                 pass
             yield ("key_ops", ",".join(ops) or "empty", good, {"key_ops": ops}, True)
+    # --- both ECDH parties on one curve: the sender key (ECDH-1PU) on another curve / of another key type
+    if alg in rjwe.ECDH_1PU and op == "encrypt":
+        for sspec in (("EC", "P-384"), ("EC", "secp256k1"), ("OKP", "X25519"), ("OKP", "Ed25519"), ("RSA", 2048), ("oct", 32)):
+            yield ("sender-curve", f"{sspec[0]}:{sspec[1]}", good, {"_sender": list(sspec)}, True)
     # --- private material
     if op in ("sign", "decrypt") and kty != "oct":
         yield ("private", "public-key", good, None, False)
@@ -286,6 +290,10 @@ def run_cell(cell) -> dict:
     good_ref = make_key(suitable_spec(alg), seed)
     bad_ref = make_key(tuple(cell["keyspec"]), seed) if tuple(cell["keyspec"]) != suitable_spec(alg) else good_ref
     sender_ref = make_key(("EC", "P-256"), seed + 1) if alg in rjwe.ECDH_1PU else None
+    bad_sender = None
+    if cell["clause"] == "sender-curve":
+        bad_sender = jkey(make_key(tuple(cell["params"]["_sender"]), seed + 2), "dict", True)
+        cell = dict(cell, params=None)
     sender_priv = jkey(sender_ref, "dict", True) if sender_ref else None
     sender_pub = jkey(rk.public_of(sender_ref), "dict", False) if sender_ref else None
     params = cell["params"]
@@ -304,7 +312,11 @@ def run_cell(cell) -> dict:
                 want_private = cell["private"] if cell["clause"] == "private" else natural_private
                 bad = build(bad_ref, want_private, params)
                 good = build(good_ref, natural_private, None)
-                call = (lambda k: jws_produce(alg, entry, k, keymode)) if jws_ else (lambda k: jwe_produce(alg, entry, k, keymode, sender_priv))
+                if bad_sender is not None:
+                    # same (suitable) recipient key for both calls; only the sender key differs
+                    call = lambda k: jwe_produce(alg, entry, good, keymode, bad_sender if k is bad else sender_priv)  # noqa
+                else:
+                    call = (lambda k: jws_produce(alg, entry, k, keymode)) if jws_ else (lambda k: jwe_produce(alg, entry, k, keymode, sender_priv))
                 token = None
             else:
                 natural_private = op == "decrypt"
